@@ -73,6 +73,35 @@ def file_guard(rep: Report, mods):
                             rep.violation("format_file's write decision differs from FileWrite.tla", case)
                         elif bool(ret) != should_write:
                             rep.violation("format_file's return value does not tell whether the file was written", case)
+        # the real formatter on files it leaves alone (with and without a final newline): must not be rewritten
+        main.format_code = orig
+        for k, (origin, text) in enumerate(list(corpus.repo_snippets())[:: 9]):
+            for variant in (text, text.rstrip("\n"), "# pyrefact: skip_file\n" + text.rstrip("\n")):
+                try:
+                    settled = variant
+                    for _ in range(3):
+                        settled = orig(settled)
+                    if orig(settled) != settled:
+                        continue
+                except Exception:
+                    continue
+                for content in {settled, settled.rstrip("\n")}:
+                    try:
+                        if orig(content) != content:
+                            continue
+                    except Exception:
+                        continue
+                    path = Path(tmp) / f"settled_{k}.py"
+                    path.write_bytes(content.encode("utf-8"))
+                    os.utime(path, ns=(10 ** 18, 10 ** 18))
+                    try:
+                        ret = main.format_file(path)
+                    except Exception:
+                        continue
+                    n += 1
+                    if path.read_bytes() != content.encode("utf-8") or os.stat(path).st_mtime_ns != 10 ** 18 or ret:
+                        rep.violation("format_file rewrote a file whose formatted text equals its content",
+                                      {"content": content, "file_after": path.read_text(), "returned": bool(ret)})
     finally:
         main.format_code = orig
         shutil.rmtree(tmp, ignore_errors=True)
@@ -160,6 +189,43 @@ def scheduler_and_editor(rep: Report, mods, t: str) -> int:
         cases.append(("replace-expr-bad", dict(replacements={node: bad_expr})))
     # (several removals that together empty a block are not driven: no rule hands alter_code such a set, and
     #  alter_code treats removals one by one - recorded in DESIGN.md as behaviour outside the listed properties)
+    # remove_nodes on sources with semicolons (separators directly after the node, later in the file, inside strings)
+    tq = chr(39) * 3
+    semi_sources = [
+        "a = 1; b = 2; c = 3\nd = 'x; y'\nprint(a, b, c, d)\n",
+        "def f():\n    x = 1; y = 2\n    return x + y;\n\n\ndef g():\n    z = ';  '\n    return z\n\n\nprint(f(), g())\n",
+        "def twin_a(v):\n    return v + 1\n\n\ndef twin_b(v):\n    return v + 1\n\n\ndef report(width, height):\n    area = width * height;\n"
+        "    text = " + tq + "a;\n    b" + tq + "\n    return area, text\n\n\nprint(twin_a(1), twin_b(1), report(2, 3))\n",
+    ]
+    for src2 in semi_sources:
+        root2 = core.parse(src2)
+        for node in [x for x in ast.walk(root2) if isinstance(x, ast.stmt)]:
+            n += 1
+            try:
+                out = processing.remove_nodes(src2, [node], root2)
+            except Exception:
+                continue
+            # expected tree: the original with exactly this statement removed (an emptied block gets `pass`)
+            exp_tree = ast.parse(src2)
+            target = next(x for x in ast.walk(exp_tree) if isinstance(x, ast.stmt) and type(x) is type(node) and
+                          (x.lineno, x.col_offset, x.end_lineno, x.end_col_offset) ==
+                          (node.lineno, node.col_offset, node.end_lineno, node.end_col_offset))
+            for parent in ast.walk(exp_tree):
+                for field in ("body", "orelse", "finalbody"):
+                    blk = getattr(parent, field, None)
+                    if isinstance(blk, list) and target in blk:
+                        blk.remove(target)
+                        if not blk and not isinstance(parent, ast.Module):
+                            blk.append(ast.Pass())
+            try:
+                got = ast.dump(ast.parse(out))
+            except SyntaxError:
+                rep.violation("processing.remove_nodes returned text that does not parse",
+                              {"source": src2, "removed": ast.unparse(node), "output": out})
+                continue
+            if got != ast.dump(exp_tree):
+                rep.violation("processing.remove_nodes removed more (or less) than the statement it was given",
+                              {"source": src2, "removed": ast.unparse(node), "output": out})
     for name, kw in cases:
         n += 1
         try:
